@@ -665,6 +665,12 @@ func (ma *modAnalysis) calleeMods(fn *ssa.Function) ModSet {
 				ms.add(ma.ctx.heapNameOfModifies(m), ModAny)
 			}
 		}
+		if fc != nil {
+			// `records G = e`: a call of this function is logged in the ghost variable G
+			for _, r := range fc.Records {
+				ms.add("G$"+r, ModAny)
+			}
+		}
 		return ms
 	}
 	// no body
